@@ -351,6 +351,28 @@ func extractC07() *lean {
 	l.def("addUnlockDef", "String", fmt.Sprintf("%q", addUnlockDef), addUnlockDef)
 	l.def("addWriteHooks", "List String", leanStrList(addHooks), addHooks)
 	l.def("addDirectUnlockRefs", "Nat", fmt.Sprint(directUnlocks), directUnlocks)
+	// gossip/manager.go: the peer table is keyed by ONE expression everywhere (lookup, insert, delete)
+	var peerKeys []string
+	for _, d := range gman.Decls {
+		fd, ok := d.(*ast.FuncDecl)
+		if !ok || fd.Body == nil {
+			continue
+		}
+		ast.Inspect(fd.Body, func(n ast.Node) bool {
+			switch x := n.(type) {
+			case *ast.IndexExpr:
+				if exprString(x.X) == "m.peers" {
+					peerKeys = append(peerKeys, fd.Name.Name+":index:"+c07Src(x.Index))
+				}
+			case *ast.CallExpr:
+				if exprString(x.Fun) == "delete" && len(x.Args) == 2 && exprString(x.Args[0]) == "m.peers" {
+					peerKeys = append(peerKeys, fd.Name.Name+":delete:"+c07Src(x.Args[1]))
+				}
+			}
+			return true
+		})
+	}
+	l.def("gossipPeerTableKeys", "List String", leanStrList(peerKeys), peerKeys)
 	l.def("dispatch", "List String", leanStrList(dispatch), dispatch)
 	_, protoF := parseFile("network/transport/v2/protocol.go")
 	listFn := "MISSING"
